@@ -45,6 +45,16 @@ def register(claim):
           "Partial: agreement of the constructibility recursion with the ISO rules is decided per run by g++, not proved; shared virtual bases are "
           "outside the theorem (known finding: virtual-base diamond judged abstract) and, for constructibility, outside the g++ comparison.",
           "Lean 4 proof (final-overrider characterisation by mutual induction) + differential correspondence + g++ oracle", "DESIGN.md §5 C10")
+    claim("C15",
+          "Lean 4 theorems for the hand-written scanners that are modelled: scan_raw never calls std::string::compare out of range on ANY byte string "
+          "(c15_scan_raw_total, with the pre-fix counterexample kept as a theorem), and the ignore-set recursion of macro expansion strictly shrinks a "
+          "finite measure at every nested expansion (c15_expand_measure; the model expandObj is accepted by Lean's termination checker for every macro "
+          "table, cyclic ones included). Both models are tied to the real scanner / parse_file -E on generated literals and cyclic macro tables. "
+          "Everything else is explored: an edge-case list of ~150 inputs, the tests/ and parser-inc/ corpus, grammar-generated headers and their byte- and "
+          "token-level mutants through parse_file and interrogate (regular and ASan+UBSan builds, 15 s limit), random -D definitions, and the rule "
+          "'parse error => non-zero exit and no output files'.",
+          "Partial: totality of the bison parser, scopes, template instantiation and back-ends is a search result, not a theorem (fourteen crashes/hangs found this way were repaired).",
+          "Lean 4 proof (scanner safety, termination measure) + differential correspondence + fuzzing as search (labelled exploration)", "DESIGN.md §5 C15")
     claim("C20",
           "Lean 4 theorems: guarded accessors return the neutral value off-range and the entry in range; every lookup answers from the current maps "
           "for every sequence of requests/lookups/queries (cache invariant by induction over operations) and is sound/absent/exact; the unique-name "
